@@ -597,6 +597,12 @@ func (c *Ctx) sentinelNilReturn(p *errProducer) (string, bool) {
 					}
 				}
 			}
+			// a module predicate on the error that is true only for ExitCode()==1
+			if call, ok := cond.(*ssa.Call); ok && truth {
+				if cal := call.Call.StaticCallee(); cal != nil && c.inRuleScope(cal) && len(call.Call.Args) == 1 && call.Call.Args[0] == p.Val && c.predicateMeansExitCode1(cal) && c.isConfigGet(p) {
+					why = "*exec.ExitError with ExitCode()==1 from `git config --get` means the key is unset"
+				}
+			}
 			// *exec.ExitError with ExitCode()==1 from git config --get
 			if cmp, ok := isCmp(cond, token.EQL); ok && truth {
 				if n, ok := constInt(cmp.Y); ok && n == 1 {
@@ -703,4 +709,54 @@ func (c *Ctx) isNonScanningReturn(ret *ssa.Return) bool {
 		}
 		return false
 	})
+}
+
+// predicateMeansExitCode1: f(err) bool returns true only on paths guarded by
+// `<ExitError>.ExitCode() == 1`.
+func (c *Ctx) predicateMeansExitCode1(f *ssa.Function) bool {
+	if f.Signature.Results().Len() != 1 || !isBoolType(f.Signature.Results().At(0).Type()) {
+		return false
+	}
+	sawTrue := false
+	for _, ret := range returnsOf(f) {
+		for _, v := range c.resultValues(ret, 0) {
+			guarded := func(b *ssa.BasicBlock) bool {
+				return guardedBy(b, func(cond ssa.Value, truth bool) bool {
+					cmp, ok := isCmp(cond, token.EQL)
+					if !ok || !truth {
+						return false
+					}
+					n, ok := constInt(cmp.Y)
+					if !ok || n != 1 {
+						return false
+					}
+					call, ok := cmp.X.(*ssa.Call)
+					return ok && strings.HasSuffix(calleeQ(&call.Call), ".ExitCode")
+				})
+			}
+			switch x := v.(type) {
+			case *ssa.Const:
+				if x.Value != nil && x.Value.String() == "true" {
+					if !guarded(ret.Block()) {
+						return false
+					}
+					sawTrue = true
+				}
+			case *ssa.BinOp:
+				// return ok && ee.ExitCode() == 1 lowered to a phi normally; a direct comparison:
+				if cmp, ok := isCmp(x, token.EQL); ok {
+					if n, ok := constInt(cmp.Y); ok && n == 1 {
+						if call, ok := cmp.X.(*ssa.Call); ok && strings.HasSuffix(calleeQ(&call.Call), ".ExitCode") {
+							sawTrue = true
+							continue
+						}
+					}
+				}
+				return false
+			default:
+				return false
+			}
+		}
+	}
+	return sawTrue
 }
